@@ -50,6 +50,9 @@ FAULT_TABLE = [
     ('IB', '<1,2]', ['InvalidInput']), ('IB', '[1,2>', ['InvalidInput']), ('IB', '|1,2|', ['InvalidInput']), ('IB', '{1,2|', ['InvalidInput']),
     ('ML', 'v', ['InputTypeError']), ('ML', '[1,2]', ['InputTypeError']), ('ML', 'A', ['InputTypeError']), ('ML', 'A^2', ['InputTypeError']),
     ('MLV', 'x', ['InputTypeError']), ('MLV', 'A', ['InputTypeError']), ('MV', '3', ['InputTypeError']), ('MV', '[1,2,3]', ['InputTypeError']),
+    ('M', '[[1],2,3]', ['UnableToParse']), ('M', '[1,2,[3]]', ['UnableToParse']), ('M', '[[[1,2],[3,4]],[[1,2],[3,4]]]', ['UnableToParse']),
+    # author mistakes that only show while grading: still a library error (never a bare numpy / Python one)
+    ('LIN2', 'x', ['ConfigError']), ('SPANBAD', '[1,2]', ['StudentFacingError']), ('PHASEBAD', '[1,2]', ['StudentFacingError']),
     ('SUM', ['1.5', '3', 'n', 'n'], ['SummationError']), ('SUM', ['1', '3', 'n', 'pi'], ['InvalidInput']),
     ('SUM', ['1', '', 'n', 'n'], ['MissingInput']), ('L', ['', 'x'], ['MissingInput', None]),
 ]
@@ -317,6 +320,15 @@ def run_table(ctx):
             return M.StringGrader(answers='cat', validation_pattern='[a-z]+')
         if kind == 'I':
             return M.IntervalGrader(answers='[1,2]')
+        if kind == 'LIN2':
+            from mitxgraders.comparers import LinearComparer
+            return M.FormulaGrader(answers={'comparer': LinearComparer(), 'comparer_params': ['x']}, variables=['x'], samples=2)
+        if kind == 'SPANBAD':
+            from mitxgraders.comparers import vector_span_comparer
+            return M.MatrixGrader(answers={'comparer': vector_span_comparer, 'comparer_params': ['[1,2]', '3']})
+        if kind == 'PHASEBAD':
+            from mitxgraders.comparers import vector_phase_comparer
+            return M.MatrixGrader(answers={'comparer': vector_phase_comparer, 'comparer_params': ['[1,2]', '[1,2]']})
         if kind == 'IB':
             return M.IntervalGrader(answers='{1,2]', opening_brackets='([{', closing_brackets=')]}')
         if kind in ('ML', 'MLV', 'MV'):
